@@ -136,12 +136,21 @@ def run_malformed(v):
     with M.Scratch():
         with warnings.catch_warnings(record=True) as wl:
             warnings.simplefilter("always")
-            try:
-                r = malformed_variant(v)
-                res = {"raised": False, "columns": [str(x) for x in getattr(r, "columns", [])]}
-            except Exception as e:
-                res = {"raised": True, "error": type(e).__name__, "msg": str(e)[:160]}
-            res["pyrates_warnings"] = sorted({str(w.message)[:80] for w in wl if "PyRates" in type(w.message).__name__})
+            # the same malformed request twice in one process (a retry, a sweep over settings): it must be refused both times
+            res = None
+            for attempt in (1, 2):
+                n_before = len(wl)
+                try:
+                    r = malformed_variant(v)
+                    cur = {"raised": False, "columns": [str(x) for x in getattr(r, "columns", [])], "attempt": attempt}
+                except Exception as e:
+                    cur = {"raised": True, "error": type(e).__name__, "msg": str(e)[:160], "attempt": attempt}
+                cur["pyrates_warnings"] = sorted({str(w.message)[:80] for w in wl[n_before:] if "PyRates" in type(w.message).__name__})
+                if res is None or (res["raised"] or res["pyrates_warnings"]) and not (cur["raised"] or cur["pyrates_warnings"]):
+                    res = cur if res is None or not cur["raised"] else res
+                if not (cur["raised"] or cur["pyrates_warnings"]):
+                    res = cur          # a silent acceptance on any attempt is what is reported
+                    break
     return res
 
 
@@ -163,7 +172,11 @@ def malformed_variants(tables):
     vs.append({"kind": "node-values-missing-op", "wildcard": True, "expect": "raise"})
     vs.append({"kind": "two-outputs", "expect": "raise"})
     vs.append({"kind": "cyclic-operator-graph", "expect": "raise"})
-    for nm in tables.get("disallowedNames") or ["y", "dy", "pi", "E", "beta", "exp"]:
+    # the source's own list and, independently of it, the names that were reserved on the pinned tree (they collide with arguments of the generated
+    # function or with constants/functions of sympy's namespace, whatever the current list says)
+    baseline = ['y', 'dy', 'source_idx', 'target_idx', 'pi', 'I', 'E', 'S', 'Q', 'O', 'N', 'oo', 'zoo', 'nan', 'beta', 'gamma', 'Beta', 'Gamma', 'exp', 'log',
+                'sin', 'cos', 'tan', 'cot', 'sec', 'csc', 'sinh', 'cosh', 'tanh', 'sqrt', 'abs']
+    for nm in list(dict.fromkeys(list(tables.get("disallowedNames") or []) + baseline)):
         vs.append({"kind": "reserved-name", "name": nm, "expect": "raise"})
     for part in tables.get("disallowedNameParts") or ["_buffer", "_idx"]:
         vs.append({"kind": "reserved-name", "name": "k" + part, "expect": "raise"})
